@@ -112,6 +112,12 @@ LINKS = {
 LINKS["partial"] = dict(resname=None, atoms={"BB": {"resname": "A"}, "+BB": {"resname": "C"}},
                         inter={"bonds": [I(["BB", "+BB"], ["1", "0.37", "7000"])],
                                "angles": [I(["SA", "BB", "+BB"], ["2", "125", "25"]), I(["BB", "+BB", "+SC1"], ["2", "135", "35"])]})
+# replace combined with a veto: the attribute may only change where the link really applies
+LINKS["startpatch"] = dict(resname=["A", "B", "C", "D"], atoms={"BB": {"replace": {"charge": 0.9}}},
+                           inter={"constraints": [I(["BB", "+BB"], ["1", "0.43"], {"edge": False})]},
+                           non_edges=[("BB", "-BB", {})])
+LINKS["repl_pat"] = dict(resname=["A", "B", "C", "D"], atoms={"+BB": {"replace": {"mass": 99.0}}},
+                         inter={"angles": [I(["BB", "+BB", "+BB"], [], {})]})
 # pattern link: bond SC between BB and +BB restricted by [ patterns ] rows to (A,B) or (C,A)
 LINKS["pat"] = dict(resname=["A", "B", "C", "D"],
                     inter={"constraints": [I(["BB", "+BB"], ["2", "0.44"])]},
@@ -125,6 +131,10 @@ LINKS["nonedge"] = dict(resname=["A", "B", "C", "D"],
                         inter={"pairs": [I(["BB", "++BB"], ["1", "0.70", "70"])]},
                         edges=[("BB", "++BB", {})],
                         non_edges=[("BB", "+BB", {})])
+LINKS["repl_pat"] = dict(resname=["A", "B", "C", "D"], atoms={"+BB": {"replace": {"mass": 99.0}}},
+                         inter={"constraints": [I(["BB", "+BB"], ["2", "0.46"])]},
+                         patterns=[[("BB", {"resname": "A"}), ("+BB", {"resname": "B"})],
+                                   [("BB", {"resname": "C"}), ("+BB", {"resname": "A"})]])
 for _l in LINKS.values():
     _l.pop("extra_edges_for_resgraph", None)
 
